@@ -2,7 +2,9 @@
 """import_seed2.py <PROP> <OUTDIR> [<confirm log>]: copy round-2 confirmed seeded changes (variants A,B of OUTDIR) into seeded/<PROP>-C and -D."""
 import sys, os, shutil, json, re
 P, src = sys.argv[1], sys.argv[2]
-for X, Y in (("A", "C"), ("B", "D")):
+LET = sys.argv[3:5] if len(sys.argv) >= 5 else ["C", "D"]
+RND = {"C": 2, "E": 3}.get(LET[0], 2)
+for X, Y in (("A", LET[0]), ("B", LET[1])):
     if not os.path.exists(f"{src}/patch_{X}.diff"):
         continue
     dst = f"/verif/seeded/{P}-{Y}"
@@ -25,9 +27,9 @@ for X, Y in (("A", "C"), ("B", "D")):
     open(f"{dst}/notes.md", "w").write(notes)
     files = re.findall(r"^\+\+\+ b/(\S+)", open(f"{dst}/patch.diff").read(), re.M)
     mm = re.search(r"(?is)(trigger|needs|manifest)[^\n]*\n(.{0,600})", notes)
-    meta = {"id": f"{P}-{Y}", "round": 2, "breaks_property": P, "files_changed": files,
+    meta = {"id": f"{P}-{Y}", "round": RND, "breaks_property": P, "files_changed": files,
             "needs_to_manifest": (mm.group(0)[:700].strip() if mm else "see notes.md"),
-            "source": "independent sub-agent (second round) given only the property text, a scratch worktree and the one-line titles of the first-round changes to avoid",
+            "source": "independent sub-agent (later round) given only the property text, a scratch worktree and the one-line titles of the earlier changes to avoid",
             "confirmed_by": "tools/confirm_seed2.sh in a scratch worktree: demo passes on pristine tree (exit 0), demo fails with the patch (exit %d), full workspace suite passes with the patch (exit 0, 0 failed tests)" % pa,
             "demo_how": f"copy demo.rs to paseto-test/tests/demo_{P}_{Y}.rs and run `cargo test -p paseto-test --test demo_{P}_{Y} --offline` (see notes.md)"}
     json.dump(meta, open(f"{dst}/meta.json", "w"), indent=1)
